@@ -187,6 +187,21 @@ def gen_T15():
     for frag in ("',' not in s", "'\\x07' not in s", 's[0] in chantypes', 'len(s) <= channellen', 'len(s.split(None, 1)) == 1'):
         need(frag in isrc, 'ircutils.isChannel changed (expected `%s`)' % frag)
     out += 'Definition CHANTYPES : list N := %s.\nDefinition CHANNELLEN : N := %d.\n' % (cstr(defaults[0]), defaults[1])
+    # the line filters open_registry reads through, and the wrapped value lines of NormalizedString.serialize
+    uf = tree('src/utils/file.py')
+    ncl = ast.unparse(find_def(uf, 'nonCommentLines'))
+    need("for line in fd:" in ncl and "if not line.startswith('#'):" in ncl and "yield line" in ncl,
+         'utils.file.nonCommentLines changed (expected `if not line.startswith(\'#\'):`)')
+    need('return filter(str.strip, fd)' in ast.unparse(find_def(uf, 'nonEmptyLines')), 'utils.file.nonEmptyLines changed')
+    need('return nonEmptyLines(nonCommentLines(fd))' in ast.unparse(find_def(uf, 'nonCommentNonEmptyLines')), 'utils.file.nonCommentNonEmptyLines changed')
+    need('fd = utils.file.nonCommentNonEmptyLines(_fd)' in ast.unparse(opn), 'open_registry no longer reads through nonCommentNonEmptyLines')
+    nss = ast.unparse(find_def(t, 'serialize', 'NormalizedString'))
+    for frag in ('prefixLen = len(self._name) + 2', 'textwrap.wrap(s, width=76 - prefixLen, break_long_words=False, break_on_hyphens=False)',
+                 "line = ' ' * prefixLen + line",
+                 "line += '\\\\'", 'os.linesep.join(lines)'):
+        need(frag in nss, 'NormalizedString.serialize changed (expected `%s`)' % frag)
+    nsn = ast.unparse(find_def(t, 'normalize', 'NormalizedString'))
+    need('utils.str.normalizeWhitespace(s.strip())' in nsn, 'NormalizedString.normalize changed')
     progs = atomic_programs()
     out += ('(* order of validation / side effects / store in X.set and X.setValue, inlined along the MRO *)\n'
             'Inductive stm : Type :=\n| SSkip | SCheck | SError | SAssign\n| SSeq (a b : stm) | SIf (a b : stm) | STry (body handler : stm).\n')
